@@ -187,6 +187,63 @@ fn rpjive_hash_elements_extension_typing_bounded() {
     assert!(same(RpJive64_256::hash_elements(&cube), reference_sponge(&c)));
 }
 
+/// the documented Jive compression of an 8-word input block, written independently: digest word i is
+/// in[i] + in[4 + i] + perm(in)[i] + perm(in)[4 + i]
+fn reference_jive(input: [BaseElement; 8]) -> ElementDigest {
+    let mut st = input;
+    perm_rot(&mut st);
+    let mut r = [BaseElement::ZERO; 4];
+    let mut i = 0;
+    while i < 4 {
+        r[i] = input[i] + input[4 + i] + st[i] + st[4 + i];
+        i += 1;
+    }
+    ElementDigest::new(r)
+}
+
+fn any_digest() -> [BaseElement; 4] {
+    let raw: [u64; 4] = kani::any();
+    kani::assume(raw[0] < M && raw[1] < M && raw[2] < M && raw[3] < M);
+    [BaseElement::from_mont(raw[0]), BaseElement::from_mont(raw[1]), BaseElement::from_mont(raw[2]), BaseElement::from_mont(raw[3])]
+}
+
+/// merge([a, b]) == Jive compression of the block a || b, for all digests
+#[kani::proof]
+#[kani::unwind(16)]
+#[kani::stub(BaseElement::new, new_stub)]
+#[kani::stub(RpJive64_256::apply_permutation, perm_rot)]
+fn rpjive_merge_contract() {
+    let a = any_digest();
+    let b = any_digest();
+    let d = RpJive64_256::merge(&[ElementDigest::new(a), ElementDigest::new(b)]);
+    assert!(same(d, reference_jive([a[0], a[1], a[2], a[3], b[0], b[1], b[2], b[3]])));
+}
+
+/// merge_with_int(seed, v) == Jive compression of seed || [v, 0, 0, 5] for v < M and of seed || [v mod M, v div M, 0, 6]
+/// otherwise, for every seed and every 64-bit v; that input block is injective in v
+#[kani::proof]
+#[kani::unwind(16)]
+#[kani::stub(BaseElement::new, new_stub)]
+#[kani::stub(RpJive64_256::apply_permutation, perm_rot)]
+fn rpjive_merge_with_int_contract() {
+    let s = any_digest();
+    let v: u64 = kani::any();
+    kani::cover!(v == M);
+    kani::cover!(v > M);
+    let d = RpJive64_256::merge_with_int(ElementDigest::new(s), v);
+    let z = BaseElement::ZERO;
+    if v < M {
+        assert!(same(d, reference_jive([s[0], s[1], s[2], s[3], new_stub(v), z, z, new_stub(5)])));
+    } else {
+        assert!(same(d, reference_jive([s[0], s[1], s[2], s[3], new_stub(v - M), new_stub(1), z, new_stub(6)])));
+    }
+    // injectivity of the absorbed block in the integer
+    let w: u64 = kani::any();
+    kani::assume(w != v);
+    let enc = |x: u64| if x < M { (x, 0u64, 5u8) } else { (x - M, 1u64, 6u8) };
+    assert!(enc(v) != enc(w));
+}
+
 #[kani::proof]
 #[kani::unwind(16)]
 #[kani::stub(BaseElement::new, new_stub)]
